@@ -441,7 +441,7 @@ def wl_live(ctx, rng):
     rebuild.  After every write the recorded components are judged by the statement's algebra and the whole evaluation
     (every contribution's summed opacity, the names and values of its components, per-layer transmittance, depth) is
     compared with a freshly built model of the same parameters."""
-    noble = bool(rng.random() < 0.2)
+    noble = bool(ctx.case['index'] % 5 == 0)          # every fifth case on purpose (a class no longer left to chance)
     spec = make_case(rng, n_active=1 if noble else int(rng.integers(1, 4)), hion=False)
     if noble:
         # a background gas without Rayleigh (or CIA) data and ONE trace species: when that species is written to zero a
@@ -468,7 +468,7 @@ def wl_live(ctx, rng):
     if not spec['gases']:
         return
     victim = spec['gases'][int(rng.integers(0, len(spec['gases'])))]['mol']
-    start_zero = bool(rng.random() < 0.6)
+    start_zero = bool(rng.random() < 0.6) and not noble      # (the noble-background worlds start with the species present ...)
     if start_zero:
         spec['gases'] = [dict(g, mix=0.0) if g['mol'] == victim else g for g in spec['gases']]
         ctx.observe('live:starts-at-zero')
@@ -497,6 +497,8 @@ def wl_live(ctx, rng):
             v = float(10 ** rng.uniform(-7, -1.5))
         else:
             v = 0.0
+        if noble and rnd == 0:
+            v = 0.0                                        # (... and have it written to exactly zero first)
         steps.append(v)
         model[victim] = v
         writes.append((victim, v))
